@@ -267,6 +267,10 @@ def rule_r3(p, res):
     wo = p.own_method("LabelledPointUndirectedGraph", "without_labels")
     for f in (wl, wo):
         r.instance(f)
+        lab_p = f.params[1]
+        wraps = [n for n in walk_own(f.node) if isinstance(n, ast.If) and norm(n.test) == "isinstance(%s, str)" % lab_p and any(norm(x) == "%s = [%s]" % (lab_p, lab_p) for x in n.body)]
+        r.check(len(wraps) == 1, f, f.node, "%s must turn a single label given as a string into a one-element list: otherwise the string is iterated / substring-matched character by character "
+                "and other labels are selected or dropped" % f.short, {"selector": f.short, "wraps_string": len(wraps) == 1})
         rr = returns_of(f.node)
         r.check(len(rr) == 1 and isinstance(rr[0].value, ast.Call) and norm(rr[0].value.func) == "self._new_group_with_only_labels", f, f.node, "%s must go through _new_group_with_only_labels" % f.short)
     # without_labels keeps the complement in original order
@@ -318,5 +322,6 @@ WITNESSES = [
             rule="C15.R3", construct="_new_group_with_only_labels"),
     Witness("C15.W10", "menpo/landmark/labels/human/face.py", "face_ibug_68_mirrored_to_face_ibug_68", "old_map['jaw'][::-1]", "old_map['jaw']", kind="T",
             note="a different (but still distinct, complete) re-indexing is not a violation of the clauses C15 states"),
+    Witness("C15.W11", "menpo/shape/labelled.py", "LabelledPointUndirectedGraph.without_labels", "if isinstance(labels, str):\n        labels = [labels]", "pass", rule="C15.R3", construct="without_labels", note="seeded change R2-C15-A"),
     Witness("C15.T1", "menpo/landmark/labels/human/hand.py", "hand_ibug_39_to_hand_ibug_39", "thumb_indices = np.arange(0, 5)", "thumb_indices = np.array([0, 1, 2, 3, 4])", kind="T"),
 ]
